@@ -583,7 +583,8 @@ def brief(points, n=4):
     def one(p):
         if p is None:
             return "None"
-        return "(%s %s %s %s)" % (p["time"].isoformat()[5:26], p["measurement"], p["tags"], p["fields"])
+        t = p["time"].isoformat()[5:26] if hasattr(p["time"], "isoformat") else "INVALID-TIME:%r" % (p["time"],)
+        return "(%s %s %s %s)" % (t, p["measurement"], p["tags"], p["fields"])
 
     s = ", ".join(one(p) for p in points[:n])
     return "[" + s + (", ...+%d" % (len(points) - n) if len(points) > n else "") + "]"
